@@ -217,10 +217,11 @@ theorem asNs_of_not_calendar (S : TUnit) (h1 : S ≠ .auto) (h2 : S.isCalendarUn
   unfold Dur.roundNoRel
   refine Out.safe_bind (fromDurationOptions_safe _ _) (fun o ho => ?_)
   obtain ⟨hL, hS, hlt⟩ := fromDurationOptions_ok ho (defaultLargestUnit_ne_auto d)
-  dsimp only
   split
   · exact Out.safe_ok _
-  · split
+  · unfold Dur.roundNoRelSlow
+    dsimp only
+    split
     · exact Out.safe_range
     · rename_i hcal
       split
